@@ -19,35 +19,26 @@ Proof.
   destruct S; cbn [sel negb] in *; exact HK.
 Qed.
 
+Lemma firstn_le_eq {A} m n (l1 l2 : list A) : m <= n ->
+  firstn n l1 = firstn n l2 -> firstn m l1 = firstn m l2.
+Proof.
+  intros HL HE. rewrite <- (Nat.min_l m n HL), <- !firstn_firstn, HE. reflexivity.
+Qed.
+
 Section Restore.
 Variable c : cfg.
-
-(* cuts never run ahead of the signer's newest remote commitment *)
-Lemma phase_m2 S H xS xH qS qH : phase c S H xS xH qS qH ->
-  n_of S (lTail xH) <= n_of S (tip_of (rTail xS) (rTip xS)) /\
-  n_of S (rTail xS) <= n_of S (tip_of (rTail xS) (rTip xS)).
-Proof.
-  intros ph.
-  destruct ph as [R L NS NR E|kp R G SA L NR E|kp R G NS L NR E B|kp R G NS L LT NR B];
-    rewrite R; cbn [tip_of]; try (destruct G as [_ [_ [_ HM]]]); subst; try rewrite <- E; lia.
-Qed.
 
 Lemma ltail_own_bound S H xS xH qS qH :
   InvDir c S H xS xH qS qH -> InvDir c H S xH xS qH qS ->
   n_of S (lTail xS) <= n_of S (tip_of (rTail xS) (rTip xS)).
-Proof.
-  intros [j1 an nd wa wb gt gl bl m1 ph] [j1' an' nd' wa' wb' gt' gl' bl' m1' ph'].
-  destruct (phase_m2 _ _ _ _ _ _ ph) as [HA _]. destruct m1' as [m1a m1b].
-  destruct ph' as [R L NS NR E|kp R G SA L NR E|kp R G NS L NR E B|kp R G NS L LT NR B];
-    try (rewrite <- E; lia).
-  subst kp. specialize (m1b _ R). lia.
-Qed.
+Proof. intros I1 I2. apply (lt_own_bound c _ _ _ _ _ _ I1 I2). Qed.
 
-Lemma restore_commit_aux S H xS xH e k : H = negb S ->
+Lemma restore_commit_aux S H xS xH k : H = negb S ->
   good c S H (own xS) (own xH) k ->
   n_of S k <= n_of S (tip_of (rTail xS) (rTip xS)) ->
   n_of H k <= n_of H (lTail xS) ->
-  n_of H (lTail xS) <= length (peer xS) -> peer xS ++ e = own xH ->
+  n_of H (lTail xS) <= length (peer xS) ->
+  firstn (n_of H (lTail xS)) (peer xS) = firstn (n_of H (lTail xS)) (own xH) ->
   let x' := restore S xS in
   n_of S k <= length (own x') /\ n_of H k <= length (peer x') /\
   commit_of c (c_owner k) (c_h k) (logA_of S x') (logB_of S x') (c_nA k) (c_nB k) = Some k.
@@ -58,8 +49,8 @@ Proof.
   destruct S; cbn [sel negb n_of logA_of logB_of own peer] in *; apply commit_of_ext;
     rewrite firstn_firstn.
   - rewrite Nat.min_l by lia. reflexivity.
-  - rewrite Nat.min_l by lia. eapply firstn_prefix; [exact J|lia].
-  - rewrite Nat.min_l by lia. eapply firstn_prefix; [exact J|lia].
+  - rewrite Nat.min_l by lia. apply (firstn_le_eq _ _ _ _ B2 J).
+  - rewrite Nat.min_l by lia. apply (firstn_le_eq _ _ _ _ B2 J).
   - rewrite Nat.min_l by lia. reflexivity.
 Qed.
 
@@ -72,8 +63,9 @@ Lemma restore_keeps S H xS xH qS qH : H = negb S ->
 Proof.
   intros HSH I1 I2 x' k HK.
   pose proof (ltail_own_bound _ _ _ _ _ _ I1 I2) as HLB.
+  pose proof (peer_prefix c _ _ _ _ _ _ _ I2 (le_n _)) as PP.
   destruct I1 as [j1 an nd wa wb gt gl bl m1 ph]. destruct I2 as [j1' an' nd' wa' wb' gt' gl' bl' m1' ph'].
-  destruct (phase_m2 _ _ _ _ _ _ ph) as [_ HRB]. destruct m1 as [m1a m1b].
+  destruct (phase_m2 c _ _ _ _ _ _ ph) as [_ HRB]. destruct m1 as [m1a m1b].
   subst x'. unfold commits_of, restore in HK. cbn [lTail lTip rTail rTip app In] in HK.
   destruct HK as [<-|[<-|HK]].
   - eapply restore_commit_aux; try eassumption; [|lia].
@@ -109,6 +101,123 @@ Lemma reach_restore_keeps c s : reachable c s -> forall p,
 Proof. intros HR. apply inv_restore_keeps. apply inv_reachable. exact HR. Qed.
 
 (* ------------------------------------------------------------------ *)
+(* Part R2a: fee updates in the uncommitted part of a log              *)
+
+Fixpoint nfee (l : list upd) : nat :=
+  match l with [] => 0 | UFee _ :: r => Datatypes.S (nfee r) | _ :: r => nfee r end.
+
+Lemma nfee_app a b : nfee (a ++ b) = nfee a + nfee b.
+Proof. induction a as [|u a IH]; cbn; [reflexivity|]. destruct u; cbn; rewrite IH; reflexivity. Qed.
+
+Lemma nfee_split n l : nfee l = nfee (firstn n l) + nfee (skipn n l).
+Proof. rewrite <- nfee_app, firstn_skipn. reflexivity. Qed.
+
+Lemma last_fee_idx_nofee l : forall i acc, nfee l = 0 -> last_fee_idx l i acc = acc.
+Proof.
+  induction l as [|u l IH]; intros i acc HN; [reflexivity|].
+  destruct u; cbn in *; try discriminate; apply IH; exact HN.
+Qed.
+
+Lemma last_fee_idx_app l1 : forall l2 i acc,
+  last_fee_idx (l1 ++ l2) i acc = last_fee_idx l2 (i + length l1) (last_fee_idx l1 i acc).
+Proof.
+  induction l1 as [|u l1 IH]; intros l2 i acc; cbn [app length last_fee_idx].
+  - rewrite Nat.add_0_r. reflexivity.
+  - destruct u; rewrite IH; f_equal; lia.
+Qed.
+
+Lemma last_fee_idx_bound l : forall i acc j, last_fee_idx l i acc = Some j ->
+  acc = Some j \/ (i <= j < i + length l).
+Proof.
+  induction l as [|u l IH]; intros i acc j HL; cbn in HL; [left; exact HL|].
+  destruct u; apply IH in HL; cbn [length];
+    (destruct HL as [HL|HL]; [|right; lia]); try (left; exact HL).
+  inversion HL; subst. right. lia.
+Qed.
+
+Lemma last_fee_idx_some l : forall i acc, nfee l > 0 ->
+  exists j, last_fee_idx l i acc = Some j /\ i <= j.
+Proof.
+  induction l as [|u l IH]; intros i acc HN; cbn in HN; [lia|].
+  destruct u; cbn [last_fee_idx];
+    try (destruct (IH (Datatypes.S i) acc HN) as [j [HJ HL]]; exists j; split; [exact HJ|lia]).
+  destruct (Nat.eq_dec (nfee l) 0) as [E|E].
+  - rewrite last_fee_idx_nofee by exact E. exists i. split; [reflexivity|lia].
+  - destruct (IH (Datatypes.S i) (Some i)) as [j [HJ HL]]; [lia|]. exists j. split; [exact HJ|lia].
+Qed.
+
+(* the last fee update lies below b: nothing to merge into above b *)
+Lemma nfee_skipn_zero l b : b <= length l ->
+  (forall j, last_fee_idx l 0 None = Some j -> j < b) -> nfee (skipn b l) = 0.
+Proof.
+  intros HB HL. destruct (Nat.eq_dec (nfee (skipn b l)) 0) as [E|E]; [exact E|exfalso].
+  rewrite <- (firstn_skipn b l) in HL. rewrite last_fee_idx_app in HL.
+  destruct (last_fee_idx_some (skipn b l) (0 + length (firstn b l))
+              (last_fee_idx (firstn b l) 0 None)) as [j [HJ HLe]]; [lia|].
+  specialize (HL j HJ). rewrite firstn_length in HLe. lia.
+Qed.
+
+Lemma nfee_replace n : forall l r0 r, nth_error l n = Some (UFee r0) ->
+  nfee (replace_nth n l (UFee r)) = nfee l.
+Proof.
+  induction n as [|n IH]; intros [|x l] r0 r HN; cbn in *; try discriminate.
+  - inversion HN; subst x. reflexivity.
+  - destruct x; cbn; erewrite IH by exact HN; reflexivity.
+Qed.
+
+Lemma append_upd_nomerge l b u :
+  (forall j, last_fee_idx l 0 None = Some j -> j < b) -> append_upd l b u = l ++ [u].
+Proof.
+  intros HL. unfold append_upd. destruct u; try reflexivity.
+  destruct (last_fee_idx l 0 None) as [j|]; [|reflexivity].
+  destruct (Nat.leb_spec b j); [|reflexivity]. specialize (HL j eq_refl). lia.
+Qed.
+
+Lemma nfee_skipn_append_upd l b u : b <= length l ->
+  nfee (skipn b l) <= 1 -> nfee (skipn b (append_upd l b u)) <= 1.
+Proof.
+  intros HB HN. unfold append_upd.
+  assert (HA : forall v, nfee [v] = 0 -> nfee (skipn b (l ++ [v])) <= 1).
+  { intros v Hv. rewrite skipn_app, nfee_app. replace (b - length l) with 0 by lia.
+    cbn [skipn]. lia. }
+  destruct u; try (apply HA; reflexivity).
+  destruct (last_fee_idx l 0 None) as [j|] eqn:HL.
+  - destruct (Nat.leb_spec b j).
+    + pose proof (last_fee_idx_nth _ _ HL) as [r0 HNth].
+      pose proof (nfee_split b (replace_nth j l (UFee rate))) as E1.
+      pose proof (nfee_split b l) as E2.
+      rewrite (nfee_replace _ _ _ _ HNth) in E1.
+      rewrite replace_nth_firstn in E1 by lia. lia.
+    + rewrite skipn_app, nfee_app. replace (b - length l) with 0 by lia. cbn [skipn nfee].
+      rewrite (nfee_skipn_zero l b HB); [lia|]. intros j' HJ. congruence.
+  - rewrite skipn_app, nfee_app. replace (b - length l) with 0 by lia. cbn [skipn nfee].
+    rewrite (nfee_skipn_zero l b HB); [lia|]. intros j' HJ. congruence.
+Qed.
+
+(* replaying a segment with at most one fee update onto the prefix it extends
+   appends it verbatim *)
+Lemma replay_segment S dl : forall log, nfee dl <= 1 ->
+  replay S log (length log) (map MUpd dl) = log ++ dl.
+Proof.
+  intros log HN.
+  assert (G : forall dl d0, nfee (d0 ++ dl) <= 1 -> nfee d0 = 0 \/ nfee dl = 0 ->
+            replay S (log ++ d0) (length log) (map MUpd dl) = (log ++ d0) ++ dl).
+  { clear dl HN. induction dl as [|u dl IH]; intros d0 HN HD; cbn [map replay];
+      [rewrite app_nil_r; reflexivity|].
+    assert (EA : append_upd (log ++ d0) (length log) u = (log ++ d0) ++ [u]).
+    { destruct u; try reflexivity.
+      apply append_upd_nomerge. intros j HJ.
+      assert (HD0 : nfee d0 = 0) by (destruct HD as [HD|HD]; [exact HD|cbn in HD; lia]).
+      rewrite last_fee_idx_app, (last_fee_idx_nofee d0) in HJ by exact HD0.
+      apply last_fee_idx_bound in HJ. destruct HJ as [HJ|HJ]; [discriminate|lia]. }
+    rewrite EA, <- app_assoc. rewrite (IH (d0 ++ [u])).
+    - rewrite <- !app_assoc. reflexivity.
+    - rewrite <- app_assoc. exact HN.
+    - rewrite !nfee_app in *. cbn [nfee] in *. destruct u; cbn [nfee] in *; lia. }
+  specialize (G dl [] HN). rewrite app_nil_r in G. apply G. left. reflexivity.
+Qed.
+
+(* ------------------------------------------------------------------ *)
 (* Part R2: the discipline / LastWasRevoke invariant for ordinary ops  *)
 
 Ltac ph_cases ph :=
@@ -119,20 +228,26 @@ Ltac psimpl := cbn [own peer lTail lTip rTail rTip].
    x_d1: a received-but-unrevoked commitment was computed with the CURRENT
          own-count of the holder (no revocation consumed since; discipline).
    x_f : if S has an unacked signature k AND an undelivered revocation, the flag
-         tells which of the two came first, i.e. which of H's counts k used. *)
+         tells which of the two came first, i.e. which of H's counts k used.
+   x_fe1/x_fe2: at most one fee update among the updates first covered by the
+         unacked signature / not yet covered by any signature (in-place merge). *)
 Record XDir (S H : bool) (xS xH : party) (qS : list msg) (fS : bool) : Prop := mkXDir {
   x_d1 : forall k, lTip xH = Some k -> n_of H k = n_of H (rTail xH);
   x_f : forall k, rTip xS = Some k -> nrev qS = 1 -> c_h (lTail xH) = c_h (rTail xS) ->
-        n_of H k = n_of H (if fS then rTail xH else tip_of (rTail xH) (rTip xH))
+        n_of H k = n_of H (if fS then rTail xH else tip_of (rTail xH) (rTip xH));
+  x_fe1 : forall k, rTip xS = Some k ->
+          nfee (skipn (n_of S (rTail xS)) (firstn (n_of S k) (own xS))) <= 1;
+  x_fe2 : nfee (skipn (n_of S (tip_of (rTail xS) (rTip xS))) (own xS)) <= 1
 }.
 
 Lemma xdir_ext S H xS xH qS fS xS' xH' qS' :
   XDir S H xS xH qS fS ->
   lTip xH' = lTip xH -> rTail xH' = rTail xH -> rTip xH' = rTip xH -> lTail xH' = lTail xH ->
-  rTip xS' = rTip xS -> rTail xS' = rTail xS -> nrev qS' = nrev qS ->
+  rTip xS' = rTip xS -> rTail xS' = rTail xS -> nrev qS' = nrev qS -> own xS' = own xS ->
   XDir S H xS' xH' qS' fS.
 Proof.
-  intros [d f] E1 E2 E3 E4 E5 E6 E7. constructor; rewrite ?E1, ?E2, ?E3, ?E4, ?E5, ?E6, ?E7; assumption.
+  intros [d f e1 e2] E1 E2 E3 E4 E5 E6 E7 E8.
+  constructor; rewrite ?E1, ?E2, ?E3, ?E4, ?E5, ?E6, ?E7, ?E8; assumption.
 Qed.
 
 Section XOps.
@@ -153,6 +268,34 @@ Lemma phase_nrev1 S H xS xH qS qH : phase c S H xS xH qS qH -> nrev qH = 1 ->
   exists k, rTip xS = Some k /\ lTail xH = k /\ lTip xH = None /\ kgood c S H xS xH k.
 Proof. intros ph HN. ph_cases ph; try lia. exists kp. auto. Qed.
 
+Lemma rt_good S H xS xH qS qH : phase c S H xS xH qS qH ->
+  good c S H (own xS) (own xH) (rTail xS) ->
+  good c S H (own xS) (own xH) (tip_of (rTail xS) (rTip xS)).
+Proof.
+  intros ph gt. ph_cases ph; rewrite R; cbn [tip_of]; try exact gt; destruct G as [G _]; exact G.
+Qed.
+
+(* actor S: OSend *)
+Lemma xsend_S S H xS xH qS qH fS u : H = negb S ->
+  InvDir c S H xS xH qS qH -> InvDir c H S xH xS qH qS ->
+  XDir S H xS xH qS fS ->
+  XDir S H (mkParty (append_upd (own xS) (committed_bound S xS) u) (peer xS)
+                    (lTail xS) (lTip xS) (rTail xS) (rTip xS))
+       xH (qS ++ [MUpd u]) fS.
+Proof.
+  intros HSH I1 I2 [d f e1 e2].
+  pose proof (sender_bound c _ _ _ _ _ _ I1 I2) as SB.
+  destruct I1 as [j1 an nd wa wb gt gl bl m1 ph].
+  pose proof (rt_good _ _ _ _ _ _ ph gt) as [_ [BS _]].
+  constructor; psimpl; try assumption.
+  - intros k HE HN. rewrite nrev_snoc_upd in HN. apply f; assumption.
+  - intros k HE. specialize (e1 k HE).
+    rewrite append_upd_firstn; [exact e1| |].
+    + rewrite SB, HE. cbn [tip_of]. lia.
+    + rewrite HE in BS. cbn [tip_of] in BS. exact BS.
+  - rewrite SB. apply nfee_skipn_append_upd; assumption.
+Qed.
+
 (* actor S: OSign *)
 Lemma xsign_S S H xS xH qS qH fS k : H = negb S ->
   InvDir c S H xS xH qS qH -> InvDir c H S xH xS qH qS ->
@@ -162,16 +305,19 @@ Lemma xsign_S S H xS xH qS qH fS k : H = negb S ->
     (sel S (n_of H (lTail xS)) (length (own xS))) = Some k ->
   XDir S H (set_rTip xS (Some k)) xH (qS ++ [MSig k]) false.
 Proof.
-  intros HSH [j1 an nd wa wb gt gl bl m1 ph] [j1' an' nd' wa' wb' gt' gl' bl' m1' ph'] [d f] HR HK.
-  unfold set_rTip. constructor; psimpl; [exact d|].
-  intros k0 HE HN _. inversion HE; subst k0. rewrite nrev_snoc_sig in HN.
-  destruct (phase_nrev1 _ _ _ _ _ _ ph' HN) as [k' [R' [LT' _]]].
-  rewrite R'. cbn [tip_of].
-  assert (HL : length (own xH) = length (peer xS) + nupd qH).
-  { rewrite <- j1', app_length. reflexivity. }
+  intros HSH I1 I2 [d f e1 e2] HR HK.
+  pose proof (peer_prefix c _ _ _ _ _ _ _ I2 (le_n _)) as PP.
+  pose proof (peer_len c _ _ _ _ _ _ I2) as PL.
+  destruct I1 as [j1 an nd wa wb gt gl bl m1 ph]. destruct I2 as [j1' an' nd' wa' wb' gt' gl' bl' m1' ph'].
   apply sign_good with (xH := xH) in HK; try assumption; try lia.
-  2:{ eapply firstn_prefix; [exact j1'|exact bl']. }
-  destruct HK as [_ [_ [_ [_ HnH]]]]. rewrite HnH, LT'. reflexivity.
+  destruct HK as [_ [_ [_ [HnS HnH]]]].
+  unfold set_rTip. constructor; psimpl; [exact d| | |].
+  - intros k0 HE HN _. inversion HE; subst k0. rewrite nrev_snoc_sig in HN.
+    destruct (phase_nrev1 _ _ _ _ _ _ ph' HN) as [k' [R' [LT' _]]].
+    rewrite R'. cbn [tip_of]. rewrite HnH, LT'. reflexivity.
+  - intros k0 HE. inversion HE; subst k0. rewrite HnS, firstn_all.
+    rewrite HR in e2. cbn [tip_of] in e2. exact e2.
+  - cbn [tip_of]. rewrite HnS, skipn_all. cbn. lia.
 Qed.
 
 (* actor H: OSign (seen from direction S) *)
@@ -179,8 +325,8 @@ Lemma xsign_H S H xS xH qS qH fS t :
   InvDir c H S xH xS qH qS -> XDir S H xS xH qS fS -> rTip xH = None ->
   XDir S H xS (set_rTip xH t) qS fS.
 Proof.
-  intros [j1' an' nd' wa' wb' gt' gl' bl' m1' ph'] [d f] HR.
-  unfold set_rTip. constructor; psimpl; [exact d|].
+  intros [j1' an' nd' wa' wb' gt' gl' bl' m1' ph'] [d f e1 e2] HR.
+  unfold set_rTip. constructor; psimpl; [exact d| |exact e1|exact e2].
   intros k HE HN HC. exfalso.
   destruct (phase_nrev1 _ _ _ _ _ _ ph' HN) as [k' [R' _]]. congruence.
 Qed.
@@ -191,8 +337,8 @@ Lemma xrevoke_S S H xS xH qS qH fS k : H = negb S ->
   XDir S H xS xH qS fS -> lTip xS = Some k ->
   XDir S H (revoked xS k) xH (qS ++ [MRev]) true.
 Proof.
-  intros HSH [j1 an nd wa wb gt gl bl m1 ph] [j1' an' nd' wa' wb' gt' gl' bl' m1' ph'] [d f] HL.
-  unfold revoked. constructor; psimpl; [exact d|].
+  intros HSH [j1 an nd wa wb gt gl bl m1 ph] [j1' an' nd' wa' wb' gt' gl' bl' m1' ph'] [d f e1 e2] HL.
+  unfold revoked. constructor; psimpl; [exact d| |exact e1|exact e2].
   intros k0 HE HN HC. rewrite nrev_snoc_rev in HN.
   assert (HN0 : nrev qS = 0) by lia.
   ph_cases ph; try congruence; assert (k0 = kp) by congruence; subst k0.
@@ -209,8 +355,8 @@ Lemma xrevoke_H S H xS xH qS qH fS k : H = negb S ->
   XDir S H xS xH qS fS -> lTip xH = Some k ->
   XDir S H xS (revoked xH k) qS fS.
 Proof.
-  intros HSH [j1 an nd wa wb gt gl bl m1 ph] [d f] HL.
-  unfold revoked. constructor; psimpl; [intros ? ?; discriminate|].
+  intros HSH [j1 an nd wa wb gt gl bl m1 ph] [d f e1 e2] HL.
+  unfold revoked. constructor; psimpl; [intros ? ?; discriminate| |exact e1|exact e2].
   intros k0 HE HN HC. exfalso.
   ph_cases ph; try congruence. assert (k0 = kp) by congruence. subst k0.
   assert (k = kp) by congruence. subst k.
@@ -223,11 +369,10 @@ Lemma xdsig_H S H xS xH qS0 q fS k0 : H = negb S ->
   XDir S H xS xH (MSig k0 :: q) fS ->
   XDir S H xS (set_lTip xH (Some k0)) q fS.
 Proof.
-  intros HSH I1 [d f].
+  intros HSH I1 [d f e1 e2].
   pose proof (head_sig c H S xH xS qS0 q k0) as HS.
-  (* head_sig is stated for the direction whose holder receives: instantiate *)
   specialize (HS I1). destruct HS as [R [G [N2 [C1 [C2 [L [NR E]]]]]]].
-  unfold set_lTip. constructor; psimpl.
+  unfold set_lTip. constructor; psimpl; [| |exact e1|exact e2].
   - intros k HE. inversion HE; subst k. exact C2.
   - intros k HE HN HC. apply f; assumption.
 Qed.
@@ -238,17 +383,20 @@ Lemma xdrev_H S H xS xH qS0 q fS k : H = negb S ->
   XDir S H xS xH (MRev :: q) fS -> lTip xH = None ->
   XDir S H xS (recv_rev xH k) q fS.
 Proof.
-  intros HSH [j1' an' nd' wa' wb' gt' gl' bl' m1' ph'] [d f] HL.
-  unfold recv_rev. constructor; psimpl.
+  intros HSH [j1' an' nd' wa' wb' gt' gl' bl' m1' ph'] [d f e1 e2] HL.
+  unfold recv_rev. constructor; psimpl; [| |exact e1|exact e2].
   - intros k0 HE. congruence.
   - intros k0 HE HN. exfalso. apply phase_nrev_le in ph'. cbn [nrev] in ph'. lia.
 Qed.
 
-(* actor S: receives a revocation (rTip S := None) *)
-Lemma xdrev_S S H xS xH qS fS k :
+(* actor S: receives a revocation (rTail S := rTip S, rTip S := None) *)
+Lemma xdrev_S S H xS xH qS fS k : rTip xS = Some k ->
   XDir S H xS xH qS fS -> XDir S H (recv_rev xS k) xH qS fS.
 Proof.
-  intros [d f]. unfold recv_rev. constructor; psimpl; [exact d|]. intros; discriminate.
+  intros HR [d f e1 e2]. unfold recv_rev. constructor; psimpl; [exact d| | |].
+  - intros; discriminate.
+  - intros; discriminate.
+  - rewrite HR in e2. exact e2.
 Qed.
 
 End XOps.
@@ -272,7 +420,8 @@ Proof.
   cbn [negb] in H0.
   destruct (init_commit c true); [|discriminate]. destruct (init_commit c false); [|discriminate].
   inversion H0; subst s; clear H0.
-  split; constructor; cbn; intros; discriminate.
+  split; constructor; cbn [pA pB qAB qBA xs lwrA lwrB own peer lTail lTip rTail rTip tip_of]; intros;
+    try discriminate; rewrite skipn_nil; cbn; lia.
 Qed.
 
 Lemma xinv_send c s p u : XInv c s -> XInv c (snd (xstep c s (XOp (OSend p u)))).
@@ -283,7 +432,12 @@ Proof.
                XDir false true (pB s') (pA s') (qBA s') (lwrB s)).
   { unfold step in HS. destruct (upd_enabled c p (get (xs s) p) u);
       inversion HS; subst r s'; clear HS; [|split; assumption].
-    destruct p; cbn [get set outq set_outq pA pB qAB qBA]; split; [xext XA|xext XB|xext XA|xext XB]. }
+    pose proof HI as [I1 I2].
+    destruct p; cbn [get set outq set_outq pA pB qAB qBA]; split.
+    - eapply (xsend_S c true false); try eassumption; reflexivity.
+    - xext XB.
+    - xext XA.
+    - eapply (xsend_S c false true); try eassumption; reflexivity. }
   destruct r; cbn [snd xs lwrA lwrB]; (split; [exact HI'|exact HX]).
 Qed.
 
@@ -355,10 +509,10 @@ Proof.
       inversion HS; subst r s'; clear HS.
       assert (HL : lTip (get (xs s) p) = None) by (destruct (lTip (get (xs s) p)); [discriminate|reflexivity]).
       destruct p; cbn [get set outq set_outq pA pB qAB qBA negb] in *; rewrite HQ in *; split.
-      + exact (xdrev_S true false _ _ _ _ k XA).
+      + exact (xdrev_S true false _ _ _ _ k HR XA).
       + eapply (xdrev_H c false true); try eassumption; reflexivity.
       + eapply (xdrev_H c true false); try eassumption; reflexivity.
-      + exact (xdrev_S false true _ _ _ _ k XB). }
+      + exact (xdrev_S false true _ _ _ _ k HR XB). }
   destruct r; cbn [snd xs lwrA lwrB]; (split; [exact HI'|exact HX]).
 Qed.
 
@@ -533,13 +687,6 @@ End Mid.
 Section Mid2.
 Variable c : cfg.
 
-Lemma rt_good S H xS xH qS qH : phase c S H xS xH qS qH ->
-  good c S H (own xS) (own xH) (rTail xS) ->
-  good c S H (own xS) (own xH) (tip_of (rTail xS) (rTip xS)).
-Proof.
-  intros ph gt. ph_cases ph; rewrite R; cbn [tip_of]; try exact gt; destruct G as [G _]; exact G.
-Qed.
-
 Lemma parents_skipn_in n l i : In i (parents (skipn n l)) -> In i (parents l).
 Proof.
   intros HI. rewrite <- (firstn_skipn n l), parents_app. apply in_or_app. right. exact HI.
@@ -560,13 +707,15 @@ Proof.
   intros HSH I1 I2 X HN'.
   pose proof (negb_swap _ _ HSH) as HHS.
   pose proof (ltail_own_bound c _ _ _ _ _ _ I2 I1) as HLB.
+  pose proof (peer_prefix c _ _ _ _ _ _ _ I1 (le_n _)) as PF.
+  pose proof X as [_ _ XE1 _].
   destruct I1 as [j1 an nd wa wb gt gl bl m1 ph]. destruct I2 as [j1' an' nd' wa' wb' gt' gl' bl' m1' ph'].
   destruct (phase_m2 c _ _ _ _ _ _ ph) as [A1 A2].
   destruct (phase_m2 c _ _ _ _ _ _ ph') as [A1' A2'].
   pose proof (phase_cls c _ _ _ _ _ _ ph) as CL.
   pose proof (phase_owes_rev c _ _ _ _ _ _ ph') as OR.
-  pose proof (rt_good _ _ _ _ _ _ ph gt) as GRT.
-  pose proof (rt_good _ _ _ _ _ _ ph' gt') as GRT'.
+  pose proof (rt_good c _ _ _ _ _ _ ph gt) as GRT.
+  pose proof (rt_good c _ _ _ _ _ _ ph' gt') as GRT'.
   destruct GRT as [_ [BS _]]. destruct GRT' as [_ [BH _]].
   destruct m1 as [m1a m1b].
   unfold sigpart, revpart, c1b, diff_updates, owes_rev in *. unfold restore in *. psimpl. cbn [own peer lTail lTip rTail rTip] in HN'.
@@ -581,10 +730,12 @@ Proof.
                 upto_rev (if owes_rev xS xH then [MRev] else []) = [])
     by (destruct (owes_rev xS xH); repeat split).
   destruct NRP as [NRP1 [NRP2 NRP3]].
-  assert (PF : firstn aS (peer xH) = firstn aS (own xS)) by (eapply firstn_prefix; [exact j1|exact bl]).
+  fold aS in PF.
+  assert (RP : forall log b, replay S log b (if owes_rev xS xH then [MRev] else []) = log)
+    by (intros; destruct (owes_rev xS xH); reflexivity).
   match goal with |- InvDir _ _ _ _ _ (mid_q fS ?sp ?rp) _ => set (Q := mid_q fS sp rp) end.
   (* the three facts that depend on the class of the direction *)
-  assert (QF : firstn aS (peer xH) ++ upds_in Q = firstn bS (own xS) /\
+  assert (QF : replay S (firstn aS (peer xH)) aS Q = firstn bS (own xS) /\
                (forall i, In i (parents (upto_rev Q)) ->
                   exists a, add_pos (own xH) i = Some a /\ a < n_of H (rTail xH)) /\
                phase c S H
@@ -593,7 +744,7 @@ Proof.
                  Q qH').
   { destruct CL as [R T|k R G T|k R G T B].
     - (* nothing unacked *)
-      subst Q. rewrite R. rewrite mid_q_nil. rewrite NRP2, NRP3, app_nil_r.
+      subst Q. rewrite R. rewrite mid_q_nil. rewrite RP, NRP3.
       assert (aS = bS) by (subst aS bS; rewrite R, T; reflexivity).
       split; [congruence|]. split; [intros i HI; destruct HI|].
       apply Ph0; psimpl; try assumption; try reflexivity; [|congruence].
@@ -612,6 +763,12 @@ Proof.
                 exists a, add_pos (own xH) i = Some a /\ a < n_of H k).
       { intros i HI. subst dl. apply parents_skipn_in in HI. rewrite <- EB in HI.
         eapply good_parents; [exact HSH|exact G|exact HI]. }
+      assert (NDL : nfee dl <= 1).
+      { specialize (XE1 k R). rewrite EA, EB in XE1. exact XE1. }
+      assert (RD : replay S (firstn aS (peer xH)) aS (map MUpd dl) = firstn bS (own xS)).
+      { rewrite PF.
+        replace aS with (length (firstn aS (own xS))) at 2 by (rewrite firstn_length; lia).
+        rewrite replay_segment by exact NDL. apply firstn_skipn_split. exact A1. }
       assert (NQ' : nrev qH' = 0).
       { rewrite HN'. unfold owes_rev. rewrite T.
         destruct (Z.eqb_spec (c_h (rTail xS) + 1) (c_h (rTail xS))); [lia|reflexivity]. }
@@ -621,8 +778,9 @@ Proof.
       { split; [|split; [exact Ho|split; [exact Hh|exact Hm]]]. psimpl.
         apply good_firstn; try assumption; [lia|]. specialize (m1b k R). lia. }
       split; [|split].
-      + unfold mid_q. destruct fS; rewrite !upds_in_app, upds_in_map, NRP2; cbn [upds_in];
-          rewrite ?app_nil_r; cbn [app]; rewrite PF; apply firstn_skipn_split; exact A1.
+      + unfold mid_q. destruct fS.
+        * rewrite <- app_assoc, replay_app, RD. cbn [app replay]. apply RP.
+        * destruct (owes_rev xS xH); cbn [app replay]; rewrite replay_app, RD; reflexivity.
       + intros i HI. unfold mid_q in HI. destruct fS.
         * rewrite <- app_assoc, upto_rev_map_app in HI. cbn [app upto_rev] in HI.
           rewrite NRP3, app_nil_r in HI.
@@ -639,18 +797,18 @@ Proof.
         * exists (map MUpd dl), (if owes_rev xS xH then [MRev] else []).
           rewrite <- app_assoc. cbn [app]. split; [reflexivity|].
           split; [apply nsig_map|]. split; [exact NRP1|]. psimpl.
-          split; [rewrite firstn_length, nupd_map; lia|].
+          split; [unfold hb; psimpl; cbn [tip_of]; rewrite EA, RD, firstn_length; lia|].
           unfold ev_rtail. rewrite nrev_map. cbn [Nat.eqb]. psimpl.
           destruct (Nat.eqb (nrev qS) 0); exact K.
         * destruct OR as [[N0 O0]|[N1 O1]].
           -- rewrite O0. cbn [app]. exists (map MUpd dl), [].
              split; [reflexivity|]. split; [apply nsig_map|]. split; [reflexivity|]. psimpl.
-             split; [rewrite firstn_length, nupd_map; lia|].
+             split; [unfold hb; psimpl; cbn [tip_of]; rewrite EA, RD, firstn_length; lia|].
              unfold ev_rtail. rewrite nrev_map. cbn [Nat.eqb]. psimpl.
              rewrite N0 in K. exact K.
           -- rewrite O1. exists (MRev :: map MUpd dl), [].
              split; [reflexivity|]. split; [cbn [nsig]; apply nsig_map|]. split; [reflexivity|]. psimpl.
-             split; [rewrite firstn_length; unfold nupd; cbn [upds_in]; rewrite upds_in_map; lia|].
+             split; [unfold hb; psimpl; cbn [tip_of replay]; rewrite EA, RD, firstn_length; lia|].
              unfold ev_rtail. cbn [nrev]. rewrite nrev_map. cbn [Nat.eqb]. psimpl.
              rewrite N1 in K. exact K.
     - (* the holder revoked into k; its revocation was lost *)
@@ -658,7 +816,7 @@ Proof.
       assert (HC : (c_h (lTail xH) =? c_h (rTail xS))%Z = false).
       { rewrite T, Hh. apply Z.eqb_neq. lia. }
       assert (aS = bS) by (subst aS bS; rewrite R, T; reflexivity).
-      subst Q. rewrite R, HC. rewrite mid_q_nil. rewrite NRP2, NRP3, app_nil_r.
+      subst Q. rewrite R, HC. rewrite mid_q_nil. rewrite RP, NRP3.
       split; [congruence|]. split; [intros i HI; destruct HI|].
       eapply Ph3; psimpl; try eassumption; try reflexivity.
       + split; [|split; [exact Ho|split; [exact Hh|exact Hm]]]. psimpl.
